@@ -2,7 +2,7 @@
    it equals Flocq's  round radix2 (FLT_exp (-1074) 53) ZnearestE (IZR z)  for every z. *)
 From Coq Require Import ZArith Reals Lia Lra.
 From Flocq Require Import Core.
-From Murex Require Import Model.Num.
+From Murex Require Import Model.Num Proof.Num.
 Local Open Scope Z_scope.
 
 Definition near_even (z p : Z) : Z :=
@@ -103,4 +103,18 @@ Proof.
     rewrite round53_opp, !opp_IZR, round_NE_opp, (round53_pos w Hw). reflexivity.
   - rewrite round_0; [reflexivity|apply valid_rnd_N].
   - apply round53_pos. exact P.
+Qed.
+
+(* Corollary: the whole string -> float64 -> int path is exact up to 2^53, with no sampling:
+   the decimal string of z denotes exactly z, the correctly rounded binary64 of that real
+   number is z itself, and truncating it gives z. *)
+Theorem int_through_binary64_exact : forall z, Z.abs z <= 2 ^ 53 ->
+  parse_dec_int (itoa z) = Some z /\
+  round radix2 fexp64 ZnearestE (IZR z) = IZR z /\
+  Ztrunc (round radix2 fexp64 ZnearestE (IZR z)) = z.
+Proof.
+  intros z H. split; [apply parse_dec_int_itoa|].
+  assert (E : round radix2 fexp64 ZnearestE (IZR z) = IZR z).
+  { rewrite round53_is_binary64_RNE, (round53_exact z H). reflexivity. }
+  split; [exact E|]. rewrite E. apply Ztrunc_IZR.
 Qed.
